@@ -83,6 +83,45 @@ def boardPermStatNormally (u : User) (b : Board) : Nat :=
 def boardPermStat (u : User) (b : Board) : Nat :=
   if has u.level PERM_SYSOP then 1 else boardPermStatNormally u b
 
+/-! ### the friend list of a board (cache/cache_board.go: HbflReload, IsHiddenBoardFriend)
+
+The shared-memory row `SHM.Hbfl[bid]` is a list of `MAX_FRIEND+1` numbers: the load time, then the friends' uids up
+to the first 0.  The list file `boards/<b>/<board>/visable` is the uid each of its lines resolves to, in order
+(0: a line that is skipped — `guest`, an unknown id, an empty first field); `none`: the file cannot be opened. -/
+
+def MAX_FRIEND : Nat := Gen.WriteGuards.MAX_FRIEND
+def HBFLexpire : Nat := Gen.WriteGuards.HBFLexpire
+
+/-- the uids HbflReload stores: the first MAX_FRIEND lines that resolve to a user. -/
+def hbflFill (entries : List Nat) : List Nat := (entries.filter (· ≠ 0)).take MAX_FRIEND
+
+/-- cache.HbflReload.  Two facts the translator read in the source: `replaces` — the new list is built in a zeroed
+local array and copied over the whole row (otherwise the row is filled in place and keeps its tail);
+`missingKeeps` — the function returns right after a failed open of the list file, leaving friends and load time as
+they were (the code before fix 1b78546; now a missing file is an empty list). -/
+def hbflReload (replaces missingKeeps : Bool) (row : List Nat) (file : Option (List Nat)) (now : Nat) : List Nat :=
+  match file, missingKeeps with
+  | none, true => row
+  | _, _ =>
+      let fs := hbflFill (file.getD [])
+      if replaces then now :: (fs ++ List.replicate (MAX_FRIEND - fs.length) 0)
+      else now :: (fs ++ row.drop (1 + fs.length))
+
+/-- the scan of IsHiddenBoardFriend: up to the first 0. -/
+def hbflScan (uid : Nat) : List Nat → Bool
+  | [] => false
+  | f :: r => if f = 0 then false else if f = uid then true else hbflScan uid r
+
+/-- cache.IsHiddenBoardFriend for valid bid / uid: reload when the load time is older than HBFLexpire, then scan
+entries 1..MAX_FRIEND.  Returns the answer and the row afterwards. -/
+def isHiddenBoardFriend (replaces missingKeeps : Bool) (row : List Nat) (file : Option (List Nat)) (uid now : Nat) :
+    Bool × List Nat :=
+  let row' := if ((row.headD 0 : Nat) : Int) < (now : Int) - (HBFLexpire : Int) then hbflReload replaces missingKeeps row file now else row
+  (hbflScan uid ((row'.drop 1).take MAX_FRIEND), row')
+
+/-- the row of a board nobody has looked at since `now` (the harness fixture): loaded now, no friends. -/
+def hbflFresh (now : Nat) : List Nat := now :: List.replicate MAX_FRIEND 0
+
 /-! ### posting (ptt/cache.go, ptt/acl.go) -/
 
 /-- ptt.isBannedBy: the expiry read from the ban file; an expired file is removed and reads as 0; no file
